@@ -2,7 +2,7 @@
    Statements about the engine model E. *)
 From stdpp Require Import base list option numbers.
 From Incr.Model Require Import Base Live Engine Api.
-From Incr.Proofs Require Import Pres FrameMono Invalidate.
+From Incr.Proofs Require Import Pres FrameMono Invalidate OkPres RchInv RchMin HeapValid FrameHeapValid Histories.
 
 (* When the lhs-change node of a bind is recomputed and the bind already had a right-hand side (so
    its left-hand side changed), then once that recomputation returns, every node the previous run of
@@ -39,6 +39,31 @@ Theorem C03_invalid_node_is_never_run :
     (recompute_one fuel n s).1 = Panic PRecomputeInvalid.
 Proof. exact recompute_one_invalid. Qed.
 
+(* ---- the scheduling half, for debug builds: the recompute heap never holds an invalid node.
+   [VNx [] s]: s is a debug-build state in which every node whose cell says it is in the heap is valid.
+   It holds after every operation of every history up to the first one that does not return normally:
+   invalidate_node is the only function that marks a node invalid, and before it returns it takes the
+   node out of the heap (the exception it opens in between is the X of VNx X). *)
+Theorem C03_heap_holds_valid_nodes_in_every_history :
+  forall fuel max_height ops, while_ok (run_history fuel max_height true ops) (VNx []).
+Proof. exact history_heap_valid. Qed.
+
+Theorem C03_every_operation_keeps_queued_nodes_valid :
+  forall fuel st o X, okp (VNx X) (step fuel st o).
+Proof. exact vn_step. Qed.
+
+Theorem C03_invalidate_node_takes_its_node_out_of_the_heap :
+  forall fuel n X, okp (VNx X) (invalidate_node fuel n).
+Proof. exact vn_invalidate_node. Qed.
+
+(* so the node the stabilise loop takes out of the heap is valid: the loop never asks an invalidated
+   node — a node created by a superseded run of a bind closure, say — to recompute *)
+Theorem C03_popped_node_is_valid :
+  forall s n s', VNx [] s -> rch_inv s -> rch_extra s ->
+    rch_remove_min s = (Ok (Some n), s') ->
+    exists x, nodes s !! n = Some x /\ n_valid x = true.
+Proof. exact popped_node_is_valid. Qed.
+
 (* non-vacuity: a bind whose left-hand side changes; the node created by the first run (rank 3)
    is invalid after the second stabilise while it is still referenced by an exported handle *)
 Example C03_nonvacuous :
@@ -53,3 +78,7 @@ Proof. vm_compute. reflexivity. Qed.
 Print Assumptions C03_superseded_run_is_invalidated.
 Print Assumptions C03_invalid_is_forever.
 Print Assumptions C03_invalid_node_is_never_run.
+Print Assumptions C03_heap_holds_valid_nodes_in_every_history.
+Print Assumptions C03_every_operation_keeps_queued_nodes_valid.
+Print Assumptions C03_invalidate_node_takes_its_node_out_of_the_heap.
+Print Assumptions C03_popped_node_is_valid.
